@@ -14,7 +14,7 @@ ASSUMPTIONS = ["reference model R (vlib/ref.py) trial-count arithmetic is the do
 MINIMUMS = {"quick": {"T_compared": 400, "sequences_length_checked": 1500, "T_gt_crossing_size": 60},
             "thorough": {"T_compared": 6000, "sequences_length_checked": 25000, "T_gt_crossing_size": 900}}
 CASE_TIMEOUT = 90
-CLASSES = ["K1", "K2", "K3", "K4", "K5", "K6", "K6", "K7", "K7", "K8", "K8", "K9", "K9", "K10", "K11", "K11"]
+CLASSES = ["K1", "K2", "K3", "K4", "K5", "K6", "K6", "K7", "K7", "K8", "K8", "K9", "K9", "K10", "K11", "K11", "K12", "K12"]
 
 
 def cases(tier, seed):
